@@ -3,7 +3,9 @@
 //! with explicit limbs, on any of the four back ends.  No key is involved.
 //!
 //! Request line:
-//!   `id be=<fft64ref|ntt120ref|fft64avx|ntt120avx> n=<N> scr=<i64> ; decl ; decl ; … ; op ; op ; …`
+//!   `id be=<fft64ref|ntt120ref|fft64avx|ntt120avx> n=<N> scr=<i64> [sb=<bytes>] ; decl ; decl ; … ; op ; op ; …`
+//!   (`sb` = size of the scratch arena handed to every operation, default 65536: the operations that need
+//!   scratch assert `scratch.available() >= …_tmp_bytes` → `panic:scratch`)
 //! Declarations (pool entries are numbered 0,1,… in order of declaration):
 //!   `ct <rank> <size> <base2k> <V>`                     a GLWE (rank 0 = plaintext)
 //!   `ggsw <rank> <size> <base2k> <dnum> <dsize> <V>`    a GGSW
@@ -97,10 +99,10 @@ enum Stop {
 macro_rules! ops_backend {
     ($fname:ident, $be:ty) => {
         /// returns the step outputs produced so far in `out`; Err(kind) for a malformed request
-        fn $fname(n: usize, scr: i64, stmts: &[Vec<&str>], out: &mut Vec<String>) -> Result<(), Stop> {
+        fn $fname(n: usize, scr: i64, sb: usize, stmts: &[Vec<&str>], out: &mut Vec<String>) -> Result<(), Stop> {
             type BE = $be;
             let module: Module<BE> = Module::<BE>::new(n as u64);
-            let mut scratch: ScratchOwned<BE> = ScratchOwned::alloc(1 << 16);
+            let mut scratch: ScratchOwned<BE> = ScratchOwned::alloc(sb);
             let mut pool: Vec<Obj> = Vec::new();
 
             macro_rules! ct {
@@ -340,6 +342,7 @@ pub fn run(_args: &[String]) {
         let mut be = "fft64ref";
         let mut n = 8usize;
         let mut scr = 0i64;
+        let mut sb = 1usize << 16;
         for t in &head[1..] {
             if let Some(v) = t.strip_prefix("be=") {
                 be = v;
@@ -347,15 +350,17 @@ pub fn run(_args: &[String]) {
                 n = v.parse().unwrap();
             } else if let Some(v) = t.strip_prefix("scr=") {
                 scr = v.parse().unwrap();
+            } else if let Some(v) = t.strip_prefix("sb=") {
+                sb = v.parse().unwrap();
             }
         }
         let stmts: Vec<Vec<&str>> = parts.map(|s| s.split_whitespace().collect()).collect();
         let mut out: Vec<String> = Vec::new();
         let r = std::panic::catch_unwind(std::panic::AssertUnwindSafe(|| match be {
-            "fft64ref" => run_fft64ref(n, scr, &stmts, &mut out),
-            "ntt120ref" => run_ntt120ref(n, scr, &stmts, &mut out),
-            "fft64avx" => run_fft64avx(n, scr, &stmts, &mut out),
-            "ntt120avx" => run_ntt120avx(n, scr, &stmts, &mut out),
+            "fft64ref" => run_fft64ref(n, scr, sb, &stmts, &mut out),
+            "ntt120ref" => run_ntt120ref(n, scr, sb, &stmts, &mut out),
+            "fft64avx" => run_fft64avx(n, scr, sb, &stmts, &mut out),
+            "ntt120avx" => run_ntt120avx(n, scr, sb, &stmts, &mut out),
             _ => Err(Stop::Err("backend")),
         }));
         let tail = match r {
